@@ -251,6 +251,36 @@ pub fn eval_pattern_text(cfg: &Cfg, ast: &Node, pat: Vec<u32>, flags: Flags, hay
         }};
     }
 
+    // the string entry points (Regex::with_flags(&str, &str), Regex::new, FromStr) must build the same program
+    // as from_unicode with the Flags struct, which is what every other part of this sweep compiles through
+    if cfg.prop == Prop::C01 {
+        if let Some(text) = pat.iter().map(|&c| char::from_u32(c)).collect::<Option<String>>() {
+            st.add("string_entry_point_compiles", 1);
+            let fs = flags.to_string();
+            let fp = subject::fingerprint(&re);
+            let mut others: Vec<(&str, Result<Result<regress::Regex, regress::Error>, ()>)> = vec![("Regex::with_flags(&str, &str)", std::panic::catch_unwind(|| regress::Regex::with_flags(&text, fs.as_str())).map_err(|_| ()))];
+            if fs.is_empty() {
+                others.push(("Regex::new(&str)", std::panic::catch_unwind(|| regress::Regex::new(&text)).map_err(|_| ())));
+                others.push(("str::parse::<Regex>()", std::panic::catch_unwind(|| text.parse::<regress::Regex>()).map_err(|_| ())));
+            }
+            for (name, r) in others {
+                let same = match &r {
+                    Ok(Ok(r2)) => subject::fingerprint(r2) == fp,
+                    _ => false,
+                };
+                if !same {
+                    let h = Hay::new(vec![]);
+                    let got = match &r {
+                        Ok(Ok(r2)) => J::s(&format!("{:?}", r2).chars().take(300).collect::<String>()),
+                        Ok(Err(e)) => J::s(&format!("Err({})", e.text)),
+                        Err(()) => J::s("panic"),
+                    };
+                    vio!(&format!("{} does not build the program that from_unicode + Flags builds", name), &h, 0, J::s(&format!("{:?}", re).chars().take(300).collect::<String>()), got);
+                }
+            }
+        }
+    }
+
     // per-property extra programs
     let re_noopt = if cfg.prop == Prop::C03 || cfg.prop == Prop::C05 {
         match subject::compile(&pat, flags, true) {
